@@ -669,3 +669,7 @@ func rangedSlice(b *ssa.BasicBlock) (ssa.Value, ssa.Instruction) {
 	}
 	return nil, nil
 }
+
+// resOf returns result i of a return, looking through the stack slot go/ssa spills results to in
+// functions with defers.
+func resOf(ret *ssa.Return, i int) ssa.Value { return origin(ret.Results[i]) }
